@@ -22,11 +22,11 @@ ASSUMPTIONS = ["spec/iec62386_tables.py lists every command of the implemented p
                "instance maps are real DeviceInstanceTypeMapper objects resolving every (address, instance) to one type"]
 EXHAUSTIVE = {"quick": False, "thorough": True}
 REQUIRED_ANCHORS = {"all": ["decoded16", "decoded24", "decoded_event", "decoded_other_len", "order_passes",
-                            "fingerprints_compared", "generic_checked", "map_history_decodes", "retained_results_checked"]}
+                            "fingerprints_compared", "generic_checked", "map_history_decodes", "retained_results_checked", "threaded_decodes"]}
 SHARD_TIMEOUT = {"quick": 600, "thorough": 3000}
 
 QUICK_DTS = [0, 1, 4, 5, 6, 8, 2, 3, 7, 254, 255]
-MAP_TYPES = [1, 3, 4, 0, 2, 17, 31]
+MAP_TYPES = [1, 3, 4, 0, 2, 17, 31, 32]      # 32: a map may name a type no frame can carry (types in frames are 5 bits)
 
 
 def plan(tier, seed):
@@ -44,6 +44,7 @@ def plan(tier, seed):
             sh.append({"kind": "ev", "alo": 8 * p, "ahi": 8 * (p + 1), "data": "strided"})
         sh.append({"kind": "len", "n": 40})
         sh.append({"kind": "maphist", "n": 300})
+        sh.append({"kind": "threads", "n": 6000})
     else:
         sh.append({"kind": "maphist", "n": 5000})
         for dt0 in range(0, 256, 4):
@@ -55,6 +56,7 @@ def plan(tier, seed):
         for p in range(64):
             sh.append({"kind": "ev", "alo": p, "ahi": p + 1, "data": "all"})
         sh.append({"kind": "len", "n": 400})
+        sh.append({"kind": "threads", "n": 60000})
     return sh
 
 
@@ -323,6 +325,57 @@ def map_histories(cx, res, n, seed):
             res.sample({"map_history": log})
 
 
+def threaded(cx, res, n, seed):
+    """A pure function gives the same answers to several threads asking at once (a monitor thread decoding bus traffic beside
+    the application).  8 threads, tiny switch interval, each thread its own shuffled order of the same cases."""
+    import sys
+    import threading
+    r = random.Random(f"{seed}:threads")
+    cases = []
+    for _ in range(n):
+        c = r.random()
+        if c < 0.45:
+            cases.append((16, r.getrandbits(16), r.choice([0, 0, 1, 6, 8, 5, 255]), "none"))
+        elif c < 0.9:
+            cases.append((24, r.getrandbits(24), 0, r.choice(["none", "empty", "t1", "t3", "t4", "t32"])))
+        else:
+            nb = r.choice([8, 17, 25, 32])
+            cases.append((nb, r.getrandbits(nb), 0, "none"))
+    ref = []
+    for (nb, v, dt, mp) in cases:
+        out = decode_check(cx, res, nb, v, dt, mp, False)
+        ref.append(out)
+    wrong = []
+    sink = Result()
+    old = sys.getswitchinterval()
+    sys.setswitchinterval(1e-6)
+    try:
+        def worker(k):
+            order = list(range(len(cases)))
+            random.Random(k).shuffle(order)
+            for i in order:
+                nb, v, dt, mp = cases[i]
+                d = decode_check(cx, sink, nb, v, dt, mp, False)
+                if d != ref[i]:
+                    wrong.append((k, cases[i]))
+        ts = [threading.Thread(target=worker, args=(k,)) for k in range(8)]
+        for t in ts:
+            t.start()
+        for t in ts:
+            t.join(600)
+    finally:
+        sys.setswitchinterval(old)
+    res.evaluations += 8 * len(cases)
+    res.hit("threaded_decodes", 8 * len(cases))
+    if wrong:
+        k, (nb, v, dt, mp) = wrong[0]
+        res.violation("C01/threads/result-differs", f"with 8 threads decoding at once, thread {k} decoded frame {v:#x} ({nb} bits, dt {dt}, "
+                      f"map {mp}) differently from a single thread ({len(wrong)} differing decodes)",
+                      {"len": nb, "frame": v, "dt": dt, "map": mp})
+    for v_ in sink.violations[:3]:
+        res.violation(v_["key"] + "/threads", v_["what"], v_["witness"])
+
+
 def cross_check(extra):
     """The same (device type, frame range) block decoded by different processes (other device types decoded before it)."""
     seen = {}
@@ -404,6 +457,8 @@ def run_shard(desc, tier, seed):
         res.sample({"other_lengths": "1..15, 17..23, 25..64", "cases": len(cases)})
     elif kind == "maphist":
         map_histories(cx, res, desc["n"], seed)
+    elif kind == "threads":
+        threaded(cx, res, desc["n"], seed)
     fp1 = fingerprint()
     res.hit("fingerprints_compared")
     new_containers = [k for k in fp1 if k not in fp0]
